@@ -12,6 +12,12 @@ import zoo
 REL = 1e-9
 
 
+def amax(a):
+    """max |a|, 0 for an empty array (a learner may return a transformation with no rows)"""
+    a = np.asarray(a)
+    return float(np.abs(a).max()) if a.size else 0.0
+
+
 def run(R, tier, seed, driver_ok):
     quiet()
     rng = np.random.RandomState(seed + 202)
@@ -34,9 +40,9 @@ def run(R, tier, seed, driver_ok):
             R.violation('M-shape', f'{label}: M shape {M.shape}', case0)
             continue
         nm = max(np.linalg.norm(M), 1e-300)
-        if np.abs(M - M.T).max() > 1e-12 * nm:
+        if amax(M - M.T) > 1e-12 * nm:
             R.violation('M-asym', f'{label}: get_mahalanobis_matrix not symmetric', case0)
-        if np.abs(M - L.T.dot(L)).max() > REL * normL ** 2 + 1e-300:
+        if amax(M - L.T.dot(L)) > REL * normL ** 2 + 1e-300:
             R.violation('M-not-LtL', f'{label}: M != LᵀL', case0)
         if np.linalg.eigvalsh((M + M.T) / 2).min() < -1e-10 * nm:
             R.violation('M-not-psd', f'{label}: M has a negative eigenvalue', case0)
@@ -82,12 +88,12 @@ def run(R, tier, seed, driver_ok):
                 pv = est.pair_distance(V)
                 if vn.startswith('uint'):
                     mv = np.array([float(metric(V[i, 0], V[i, 1])) for i in range(len(V))])
-                    if np.abs(mv - pd).max() > 1e-9 * (normL * np.abs(P).max() + 1e-300):
+                    if amax(mv - pd) > 1e-9 * (normL * amax(P) + 1e-300):
                         R.violation(f'arraylike-get_metric-{vn}', f'{label}: get_metric differs for {vn} input', {'est': label, 'L': L, 'pairs': P})
-                if pv.shape != pd.shape or np.abs(pv - pd).max() > 1e-12 * (normL * np.abs(P).max() + 1e-300):
+                if pv.shape != pd.shape or amax(pv - pd) > 1e-12 * (normL * amax(P) + 1e-300):
                     R.violation(f'arraylike-{vn}', f'{label}: pair_distance differs for {vn} input', {'est': label, 'L': L, 'pairs': P})
                 tv = est.transform(V[:, 0] if not isinstance(V, list) else [p[0] for p in V])
-                if np.abs(tv - T0).max() > 1e-12 * (normL * np.abs(P).max() + 1e-300):
+                if amax(tv - T0) > 1e-12 * (normL * amax(P) + 1e-300):
                     R.violation(f'arraylike-transform-{vn}', f'{label}: transform differs for {vn} input', {'est': label, 'L': L, 'pairs': P})
             single = np.array([est.pair_distance(P[i:i + 1])[0] for i in range(len(P))])
             for i in range(len(P)):
@@ -141,7 +147,7 @@ def run(R, tier, seed, driver_ok):
         m2 = np.array([float(est.get_metric()(P[i, 0], P[i, 1])) for i in range(len(P))])
         R.case(('c02-refit', name, X2.tobytes().hex()[:32]), True, branch='after-refit')
         sd_ = np.linalg.norm(L) * np.linalg.norm(diff, axis=1)
-        if np.abs(M - L.T.dot(L)).max() > REL * np.linalg.norm(L) ** 2 + 1e-300 or np.any(np.abs(q2 - pd ** 2) > REL * sd_ ** 2 + 1e-300) \
+        if amax(M - L.T.dot(L)) > REL * np.linalg.norm(L) ** 2 + 1e-300 or np.any(np.abs(q2 - pd ** 2) > REL * sd_ ** 2 + 1e-300) \
                 or np.any(np.abs(m2 - pd) > REL * sd_ + 1e-300):
             R.violation('views-after-refit', f'{name}: after refitting the same object, get_mahalanobis_matrix / get_metric no longer agree with pair_distance', {'est': name, 'L': L, 'M': M})
     # --- pairs given as indices through a preprocessor
@@ -169,7 +175,7 @@ def run(R, tier, seed, driver_ok):
             if v is None or len(v) != len(np.atleast_1d(impl)):
                 R.broken('driver:' + what, f'model driver answered {o[:80]}', case)
                 continue
-            err = np.abs(v - impl).max()
+            err = amax(v - impl)
             if not err <= REL * scale + 1e-300:
                 R.broken(f'correspondence:C02:{what}', f"{case['est']}: implementation vs model differ by {err:.3g} (scale {scale:.3g})", case)
         R.extra['traces_validated_against_impl'] = len(lines)
